@@ -31,6 +31,9 @@ def jobs(tier):
     for m in ("lifo", "hifo"):
         # a preferred lot bought between two disposals of the prefix, then any later lot
         js.append({"for": "C09", "form": "a", "p": "BSBS", "k": "B", "schedule": {"2020": m}, "years": [2020]})
+    for m in ("lifo", "hifo") if tier == "quick" else ("lifo", "hifo", "lofo"):
+        # many disposals drawing on the same two lots, then a later lot: candidate-set bookkeeping that depends on the number of lots
+        js.append({"for": "C09", "form": "a", "p": "BBSSSSS", "k": "B" if tier == "quick" else "BB", "schedule": {"2020": m}, "years": [2020], "strict": True})
     for p, k in pk[:3]:
         for m1, m2 in (("fifo", "hifo"), ("hifo", "lifo"), ("lifo", "fifo"), ("lofo", "hifo")):
             js.append({"for": "C09", "form": "a", "p": p, "k": k, "schedule": {"2020": m1, "2021": m2}, "years": [2020, 2021]})
@@ -74,7 +77,7 @@ def weight(spec):
 
 def bounds(tier):
     return {
-        "C09a": "prefix P of 2-3 (one job: 4) transactions, continuation K of 1-2, all of K strictly after all of P; 4 methods and selected two-year schedules; rows numbered as in a sheet with stacked tables, so that the continuation renumbers the rows of P",
+        "C09a": "prefix P of 2-3 (one job: 4) transactions, continuation K of 1-2, all of K strictly after all of P; 4 methods and selected two-year schedules; rows numbered as in a sheet with stacked tables, so that the continuation renumbers the rows of P; plus 2 lots and 5 disposals (instants strictly increasing) followed by 1-2 later lots, heap-based methods",
         "C09b": "same histories with a symbolic to_date, date(last of P) <= to_date < date(first of K), 2-year window",
         "C10": "histories of %s transactions in a 2-year window, symbolic from_date <= to_date anywhere from 2019-12-30 to 2022-01-01 (on/before/after/between transaction dates, empty windows)" % ("3" if tier == "quick" else "3-4"),
         "amounts": "k*1e-11 in [1e-11, 1e9]",
@@ -165,6 +168,9 @@ def run_c09(S, spec, RP2ValueError):
     else:
         h = Hist(S, slots, years, tz=spec.get("off") == "each")
     S.assume_cmp(h.t[np_ - 1], "<", h.t[np_])
+    if spec.get("strict"):
+        for i in range(1, len(slots)):
+            S.assume_cmp(h.t[i - 1], "<", h.t[i])
     hp = Hist.__new__(Hist)
     hp.__dict__.update(h.__dict__)
     hp.slots = [dict(s, row=rp[i]) for i, s in enumerate(base[:np_])]
